@@ -17,6 +17,7 @@ theorem calls : Tea.Gen.fact_calls = Tea.Doc.fact_calls := rfl
 theorem sendcalls : Tea.Gen.fact_sendcalls = Tea.Doc.fact_sendcalls := rfl
 theorem el_head : Tea.Gen.fact_el_head = Tea.Doc.fact_el_head := rfl
 theorem el_tail : Tea.Gen.fact_el_tail = Tea.Doc.fact_el_tail := rfl
+theorem el_cases : Tea.Gen.fact_el_cases = Tea.Doc.fact_el_cases := rfl
 theorem body_Program_Send : Tea.Gen.fact_body_Program_Send = Tea.Doc.fact_body_Program_Send := rfl
 theorem body_Program_handleCommands : Tea.Gen.fact_body_Program_handleCommands = Tea.Doc.fact_body_Program_handleCommands := rfl
 theorem el_case_sequenceMsg : Tea.Gen.fact_el_case_sequenceMsg = Tea.Doc.fact_el_case_sequenceMsg := rfl
